@@ -17,6 +17,7 @@ name: llist_vec_insert
 define: U_INSERT
 src: linked_list.c
 tier: B
+native: self
 backend: cadical
 unwind: 8
 unwind_thorough: 12
@@ -28,6 +29,7 @@ name: llist_vec_remove
 define: U_REMOVE
 src: linked_list.c
 tier: B
+native: self
 backend: cadical
 unwind: 8
 unwind_thorough: 12
@@ -39,6 +41,7 @@ name: llist_vec_find
 define: U_FIND
 src: linked_list.c
 tier: B
+native: self
 backend: cadical
 unwind: 8
 unwind_thorough: 12
@@ -50,6 +53,7 @@ name: llist_vec_readout
 define: U_READOUT
 src: linked_list.c, obj.c
 tier: B
+native: self
 backend: cadical
 unwind: 8
 unwind_thorough: 12
@@ -67,18 +71,19 @@ funcs: spif_linked_list_to_array, spif_linked_list_iterator, spif_linked_list_it
 
 #define LT spif_linked_list_t
 #define IT spif_linked_list_item_t
-#define BUILD(self, m) VL_BUILD(self, LT, IT, SPIF_VECTORCLASS_VAR(linked_list), VL_SL, m, vl_pick_len(), vl_data_vec)
+#define BUILD(self, m) do { VL_INPUTS(vin, a); VL_BUILD(self, LT, IT, SPIF_VECTORCLASS_VAR(linked_list), VL_SL, m, vin, vl_data_vec); } while (0)
 #define READ(self, r, OP) VL_READ(self, IT, VL_SL, r, 1, OP)
 #define CHECK(self, m, OP) VL_CHECK(self, IT, VL_SL, m, OP)
 
 vl_seq_t m, r;          /* ideal multiset (ascending array) before the call; read-back after it */
+vl_in_t vin;            /* the built container's inputs (VND: replayable natively) */
 int w_n, w_key;
 
 void harness(void)
 {
     LT self;
     spif_obj_t x, got;
-    int k = nondet_int(), i, present;
+    int k = (int) VND(int, k), i, present;
     spif_bool_t b;
 
     BUILD(self, m);
